@@ -457,6 +457,14 @@ func (a *Authority) renewContext(ctx context.Context, oldCert *x509.Certificate,
 		newCert.ExtraExtensions = append(newCert.ExtraExtensions, ext)
 	}
 
+	// A certificate that was issued without a subject key identifier is renewed
+	// without one: an empty but non-nil SubjectKeyId keeps
+	// x509util.CreateCertificate from generating it. On rekey the identifier of
+	// the new key is always added.
+	if !isRekey && len(oldCert.SubjectKeyId) == 0 {
+		newCert.SubjectKeyId = []byte{}
+	}
+
 	// Check if the certificate is allowed to be renewed, name constraints might
 	// change over time.
 	//
